@@ -35,6 +35,8 @@ type c19Case struct {
 	SLO   bool  `json:"with_slo"`
 	Hours int   `json:"hours"`      // index into c19Hours
 	Probe bool  `json:"probe_keys"` // run the signing / decryption cross-checks
+	// Custom: field key stores are of a custom type (not dsig.TLSCertKeyStore)
+	Custom bool `json:"custom_key_store,omitempty"`
 }
 
 func c19Keys() []c13Keys {
@@ -62,13 +64,13 @@ func c19SP(c c19Case) (*saml2.SAMLServiceProvider, c13Keys, []string) {
 	sp.Clock = world.Clock(c15Clocks[c.Clock].T)
 	sp.SPKeyStore = nil
 	if k.EncField {
-		sp.SPKeyStore = world.TLSKeyStore(c13SlotKey["enc-field"])
+		sp.SPKeyStore = world.FieldKeyStore(c13SlotKey["enc-field"], c.Custom)
 	}
 	if k.EncSetter {
 		sp.SetSPKeyStore(world.SetterKeyStore(c13SlotKey["enc-setter"]))
 	}
 	if k.SigField {
-		sp.SPSigningKeyStore = world.TLSKeyStore(c13SlotKey["sig-field"])
+		sp.SPSigningKeyStore = world.FieldKeyStore(c13SlotKey["sig-field"], c.Custom)
 	}
 	if k.SigSetter {
 		sp.SetSPSigningKeyStore(world.SetterKeyStore(c13SlotKey["sig-setter"]))
@@ -329,7 +331,7 @@ func c19Replay(raw json.RawMessage) ([]string, string) {
 }
 
 func c19Run(r *mc.Run) {
-	r.Rule = "full product key configuration(12 with an encryption key) x SignAuthnRequests x SkipSignatureValidation x {Metadata, MetadataWithSLO(h) for h in -5,0,1,24,168,8760,10^6} x clock(5), with signing/decryption cross-checks (a signed AuthnRequest of the same SP verifies with the published signing certificate; an assertion encrypted to the published encryption certificate under each listed method is decrypted by the same SP) on the key-configuration dimension, plus <=1 (quick) / <=2 (thorough) special strings among issuer / ACS URL / SLO URL; XML marshal is parsed by encoding/xml and must unmarshal back to equal values. non-trivial = metadata was produced and compared; distinct = distinct case"
+	r.Rule = "full product key configuration(12 with an encryption key) x SignAuthnRequests x SkipSignatureValidation x {Metadata, MetadataWithSLO(h) for h in -5,0,1,24,168,8760,10^6} x clock(5), with signing/decryption cross-checks (a signed AuthnRequest of the same SP verifies with the published signing certificate; an assertion encrypted to the published encryption certificate under each listed method is decrypted by the same SP) on the key-configuration dimension (field key stores as dsig.TLSCertKeyStore and as a key store of a custom type), plus <=1 (quick) / <=2 (thorough) special strings among issuer / ACS URL / SLO URL; XML marshal is parsed by encoding/xml and must unmarshal back to equal values. non-trivial = metadata was produced and compared; distinct = distinct case"
 	var cases []c19Case
 	nk := len(c19Keys())
 	mc.Enumerate(-1, r.Expired, func(ch *mc.Chooser) {
@@ -344,6 +346,10 @@ func c19Run(r *mc.Run) {
 		c.Clock = ch.Choose("clock", len(c15Clocks))
 		c.Probe = c.Clock == 0 && !c.Skip && (!c.SLO || c.Hours == 0)
 		cases = append(cases, c)
+		if kk := c19Keys()[c.Keys]; c.Probe && (kk.EncField || kk.SigField) {
+			c.Custom = true
+			cases = append(cases, c)
+		}
 	})
 	bound := 1
 	if r.Thorough() {
